@@ -17,6 +17,9 @@
 use similari::prelude::{PositionalMetricType, Sort, Universal2DBox};
 use similari::track::{ObservationAttributes, ObservationMetricOk};
 use similari::trackers::sort::voting::SortVoting;
+use similari::trackers::sort::VotingType;
+use similari::trackers::visual_sort::observation_attributes::VisualObservationAttributes;
+use similari::trackers::visual_sort::voting::VisualVoting;
 use similari::utils::kalman::kalman_2d_box::Universal2DBoxKalmanFilter;
 use similari::utils::kalman::KalmanState;
 use similari::voting::best::BestFitVoting;
@@ -138,6 +141,103 @@ fn run_sortv(thr: f32, n: usize, cols: usize, s: &[Ent]) -> String {
                 .join(";")
         }
     }
+}
+
+// ---- VisualVoting: entries carry both the positional metric and the feature distance
+#[derive(Clone, Debug)]
+struct Ent4 {
+    from: u64,
+    to: u64,
+    a: Option<f32>,
+    e: Option<f32>,
+}
+
+fn fmt_stream4(s: &[Ent4]) -> String {
+    if s.is_empty() {
+        return "-".into();
+    }
+    let o = |x: Option<f32>| x.map(f32b).unwrap_or_else(|| "-".into());
+    s.iter().map(|x| format!("{}:{}:{}:{}", x.from, x.to, o(x.a), o(x.e))).collect::<Vec<_>>().join(",")
+}
+
+fn parse_stream4(s: &str) -> Vec<Ent4> {
+    if s == "-" || s.is_empty() {
+        return vec![];
+    }
+    let o = |x: &str| if x == "-" { None } else { Some(f32::from_bits(x.parse::<u32>().unwrap())) };
+    s.split(',')
+        .map(|e| {
+            let p: Vec<&str> = e.split(':').collect();
+            Ent4 { from: p[0].parse().unwrap(), to: p[1].parse().unwrap(), a: o(p[2]), e: o(p[3]) }
+        })
+        .collect()
+}
+
+fn run_visual(thr: f32, maxd: f32, minv: usize, s: &[Ent4]) -> String {
+    let st: Vec<ObservationMetricOk<VisualObservationAttributes>> =
+        s.iter().map(|x| ObservationMetricOk::new(x.from, x.to, x.a, x.e)).collect();
+    match guarded(|| VisualVoting::new(thr, maxd, minv).winners(st)) {
+        None => "PANIC".into(),
+        Some(m) => {
+            if m.is_empty() {
+                return "-".into();
+            }
+            let mut keys: Vec<_> = m.keys().copied().collect();
+            keys.sort();
+            keys.iter()
+                .map(|k| {
+                    let v = &m[k];
+                    if v.len() == 1 {
+                        format!("{}:{}:{}", k, v[0].0, match v[0].1 { VotingType::Visual => "V", VotingType::Positional => "P" })
+                    } else {
+                        format!("{}:BADLEN{}", k, v.len())
+                    }
+                })
+                .collect::<Vec<_>>()
+                .join(";")
+        }
+    }
+}
+
+fn emit_visual(thr: f32, maxd: f32, minv: usize, s: &[Ent4]) {
+    println!("visual thr={} maxd={} minv={} s={} r={}", f32b(thr), f32b(maxd), minv, fmt_stream4(s), run_visual(thr, maxd, minv, s));
+}
+
+/// nq queries x nt tracks; per pair at most one entry with a positional metric (plus feature-only entries), so that the
+/// positional stage never sees a repeated pair
+fn gen_visual_stream(rng: &mut Rng, nq: u64, nt: u64, thrz: i64, fine: bool) -> Vec<Ent4> {
+    let mut s = vec![];
+    let grid = [0, thrz - 1, thrz, thrz + 1, 2 * thrz, 2 * thrz + 1];
+    for q in 0..nq {
+        for t in 0..nt {
+            if !rng.chance(3, 4) {
+                continue;
+            }
+            let feat = |rng: &mut Rng| {
+                if rng.chance(1, 10) {
+                    None
+                } else if fine {
+                    Some(rng.dyadic(0, 512, 8))
+                } else {
+                    Some(rng.dyadic(0, 24, 4))
+                }
+            };
+            let a = if rng.chance(1, 6) {
+                None
+            } else {
+                let z = if rng.chance(1, 3) { *rng.pick(&grid) } else { rng.range(0, 3 * thrz) };
+                Some(w_for_z(z.max(0)))
+            };
+            let e = if rng.chance(1, 4) { None } else { feat(rng) };
+            s.push(Ent4 { from: 1000 + q, to: 1 + t, a, e });
+            for _ in 0..rng.below(3) {
+                let e = feat(rng);
+                s.push(Ent4 { from: 1000 + q, to: 1 + t, a: None, e });
+            }
+        }
+    }
+    rng.shuffle(&mut s);
+    s
 }
 
 fn zs(s: &[Ent]) -> String {
@@ -298,6 +398,20 @@ fn perm_family(kind: &str, params: &str, s: &[Ent], f: &dyn Fn(&[Ent]) -> String
         alts.iter().map(|(p, r)| format!("{}@{}", p, r)).collect::<Vec<_>>().join("|")
     };
     println!("perm kind={} {} s={} r={} nperm={} alt={}", kind, params, fmt_stream(s), base, perms.len(), alt);
+}
+
+fn perm_family4(params: &str, s: &[Ent4], f: &dyn Fn(&[Ent4]) -> String) {
+    let base = f(s);
+    let mut alts: Vec<(String, String)> = vec![];
+    let perms = permutations(s);
+    for p in &perms {
+        let r = f(p);
+        if r != base && !alts.iter().any(|(_, rr)| *rr == r) {
+            alts.push((fmt_stream4(p), r));
+        }
+    }
+    let alt = if alts.is_empty() { "-".to_string() } else { alts.iter().map(|(p, r)| format!("{}@{}", p, r)).collect::<Vec<_>>().join("|") };
+    println!("perm kind=visual {} s={} r={} nperm={} alt={}", params, fmt_stream4(s), base, perms.len(), alt);
 }
 
 fn small_vote_stream(rng: &mut Rng, len: usize) -> Vec<Ent> {
@@ -793,6 +907,7 @@ fn replay_line(line: &str) {
         "topn" => emit_topn(m["n"].parse().unwrap(), fbits(&m["maxd"]), m["minv"].parse().unwrap(), &parse_stream(&m["s"])),
         "bestfit" => emit_bestfit(fbits(&m["maxd"]), m["minv"].parse().unwrap(), &parse_stream(&m["s"])),
         "sortv" => emit_sortv(fbits(&m["thr"]), m["n"].parse().unwrap(), m["cols"].parse().unwrap(), &parse_stream(&m["s"])),
+        "visual" => emit_visual(fbits(&m["thr"]), fbits(&m["maxd"]), m["minv"].parse().unwrap(), &parse_stream4(&m["s"])),
         "e2ehist" => {
             let calls: Vec<Vec<(f32, f32, f32, f32, f32)>> = m["calls"]
                 .split('|')
@@ -859,6 +974,37 @@ fn main() {
                 let (n, cols, s) = gen_sort_stream(&mut rng, thrz);
                 emit_sortv(thr, n, cols, &s);
             }
+            // ---- VisualVoting: the repository's unit-test shapes on dyadic values, then random streams
+            {
+                let e4 = |f: u64, t: u64, a: Option<f32>, e: Option<f32>| Ent4 { from: f, to: t, a, e };
+                emit_visual(0.25, 0.75, 1, &[e4(1, 2, Some(0.75), Some(0.75))]);
+                emit_visual(0.25, 0.75, 2, &[e4(1, 2, Some(0.75), Some(0.75))]);
+                emit_visual(
+                    0.25,
+                    0.75,
+                    2,
+                    &[
+                        e4(1, 2, Some(0.75), Some(0.75)),
+                        e4(1, 2, None, Some(0.6875)),
+                        e4(1, 2, None, Some(0.65625)),
+                        e4(1, 3, Some(0.75), Some(0.75)),
+                        e4(1, 3, None, Some(0.640625)),
+                        e4(11, 2, Some(0.875), Some(0.75)),
+                        e4(11, 3, Some(0.625), Some(0.640625)),
+                    ],
+                );
+            }
+            for k in 0..a.n {
+                let thr = *rng.pick(&[0.25f32, 0.3, 0.5]);
+                let thrz = (thr * F32_U64_MULT) as i64;
+                let nq = rng.range(1, 5) as u64;
+                let nt = rng.range(1, 5) as u64;
+                let fine = k % 2 == 0;
+                let s = gen_visual_stream(&mut rng, nq, nt, thrz, fine);
+                let maxd = gen_maxd(&mut rng, fine);
+                let minv = rng.range(0, 3) as usize;
+                emit_visual(thr, maxd, minv, &s);
+            }
             // zero tracks declared: early return
             emit_sortv(0.3, 2, 0, &[]);
             emit_sortv(0.3, 0, 3, &[]);
@@ -886,6 +1032,24 @@ fn main() {
                     .map(|(d, t)| Ent { from: 1000 + d, to: 1 + t, v: Some(w_for_z(rng.range(1, 900_000))) })
                     .collect();
                 perm_family("sortv", &format!("thr={} n={} cols={}", f32b(thr), nd, nt), &ss, &|p| run_sortv(thr, nd as usize, nt as usize, p));
+                // VisualVoting: 2-3 queries x 2-3 tracks, one positional entry per pair at most, distinct random weights
+                let mut cells: Vec<(u64, u64)> = (0..nd).flat_map(|d| (0..nt).map(move |t| (d, t))).collect();
+                rng.shuffle(&mut cells);
+                let mut vs: Vec<Ent4> = vec![];
+                for (d, t) in cells.iter() {
+                    if vs.len() >= len {
+                        break;
+                    }
+                    let a = if rng.chance(1, 5) { None } else { Some(w_for_z(rng.range(1, 900_000))) };
+                    let e = if rng.chance(1, 3) { None } else { Some(rng.dyadic(0, 512, 8)) };
+                    vs.push(Ent4 { from: 1000 + d, to: 1 + t, a, e });
+                    if vs.len() < len && rng.chance(1, 3) {
+                        vs.push(Ent4 { from: 1000 + d, to: 1 + t, a: None, e: Some(rng.dyadic(0, 512, 8)) });
+                    }
+                }
+                let vmaxd = if rng.chance(1, 3) { 100.0 } else { rng.dyadic(128, 512, 8) };
+                let vminv = rng.range(0, 2) as usize;
+                perm_family4(&format!("thr={} maxd={} minv={}", f32b(thr), f32b(vmaxd), vminv), &vs, &|p| run_visual(thr, vmaxd, vminv, p));
             }
             // ---- exhaustive SortVoting family over a grid straddling the threshold
             let thr = 0.25f32;
